@@ -236,41 +236,37 @@ Qed.
 
 Definition next (s : state) (o : op) : state := fst (fst (step s o)).
 
-Lemma step_cfg s o : s_cfg (next s o) = s_cfg s /\ s_mode (next s o) = s_mode s.
+Lemma inv_tick s : Inv s -> Inv (tick s).
+Proof. intros [A B C D E F]. constructor; cbn; auto. Qed.
+
+Lemma do_alloc_cfg s q fm fl :
+  s_cfg (fst (fst (do_alloc s q fm fl))) = s_cfg s /\ s_mode (fst (fst (do_alloc s q fm fl))) = s_mode s.
 Proof.
-  unfold next, step, step_body. destruct o; cbn.
-  - destruct (existsb _ _); cbn; auto.
-  - destruct (find_alloc _ _); cbn; auto. destruct (select_pool _ _) as [[[i p] b]|]; cbn; auto.
-    destruct (find_sid _ _); cbn; auto.
-  - destruct (find_alloc _ _); cbn; auto.
-  - auto.
-  - auto.
-  - auto.
+  unfold do_alloc. destruct (find_alloc _ _); cbn; auto.
+  destruct (select_pool _ _) as [[[i p] b]|]; cbn; auto.
+  destruct (find_sid _ _); destruct fm; cbn; auto.
 Qed.
 
-Lemma step_inv s o : Inv s -> Inv (next s o).
+Lemma do_dealloc_cfg s q fm fl :
+  s_cfg (fst (fst (do_dealloc s q fm fl))) = s_cfg s /\ s_mode (fst (fst (do_dealloc s q fm fl))) = s_mode s.
+Proof. unfold do_dealloc. destruct (find_alloc _ _); cbn; auto. destruct fm; cbn; auto. Qed.
+
+Lemma step_cfg s o : s_cfg (next s o) = s_cfg s /\ s_mode (next s o) = s_mode s.
 Proof.
-  intros HI. unfold next, step, step_body. destruct o as [ip|priv|priv|priv| |co]; cbn.
-  - (* AddIP *)
-    destruct (existsb (fun p => p_ip p =? ip) (s_pool s)) eqn:E; cbn; [destruct HI; constructor; auto|].
-    destruct HI as [Hmax Hips Hpriv Hslot Halloc Hused]. constructor; cbn; auto.
-    + intros i p H. destruct (Nat.lt_ge_cases i (length (s_pool s))) as [Hl|Hl].
-      * rewrite nth_error_app1 in H by exact Hl. eauto.
-      * rewrite nth_error_app2 in H by exact Hl.
-        destruct (i - length (s_pool s))%nat as [|k]; cbn in H; [inversion H; reflexivity|destruct k; discriminate].
-    + rewrite map_app. cbn. apply NoDup_app_single_r.
-      * exact Hips.
-      * intros Hin. apply in_map_iff in Hin. destruct Hin as [p [Hp Hin]].
-        assert (existsb (fun p => p_ip p =? ip) (s_pool s) = true).
-        { apply existsb_exists. exists p. split; [exact Hin|apply Z.eqb_eq; exact Hp]. }
-        congruence.
-    + intros a Ha. destruct (Halloc a Ha) as [p [Hn Hr]]. exists p. split; [|exact Hr].
-      rewrite nth_error_app1; [exact Hn|]. apply nth_error_Some. congruence.
-    + intros i p b H Hb. destruct (Nat.lt_ge_cases i (length (s_pool s))) as [Hl|Hl].
-      * rewrite nth_error_app1 in H by exact Hl. eauto.
-      * rewrite nth_error_app2 in H by exact Hl.
-        destruct (i - length (s_pool s))%nat as [|k]; cbn in H; [inversion H; subst; cbn in Hb; tauto|destruct k; discriminate].
-  - (* Alloc *)
+  unfold next, step, step_body. destruct o as [ip|q|q|q| |co|q fm fl|q fm fl].
+  - cbn. destruct (existsb _ _); cbn; auto.
+  - exact (do_alloc_cfg (tick s) q false false).
+  - exact (do_dealloc_cfg (tick s) q false false).
+  - cbn; auto.
+  - cbn; auto.
+  - cbn; auto.
+  - exact (do_alloc_cfg (tick s) q fm fl).
+  - exact (do_dealloc_cfg (tick s) q fm fl).
+Qed.
+
+Lemma do_alloc_inv s priv fm fl : Inv s -> Inv (fst (fst (do_alloc s priv fm fl))).
+Proof.
+  intros HI. unfold do_alloc.
     destruct (find_alloc priv (s_allocs s)) as [a0|] eqn:Ef; cbn; [destruct HI; constructor; auto|].
     destruct (select_pool 0 (s_pool s)) as [[[i p] b]|] eqn:Es; cbn; [|destruct HI; constructor; auto].
     destruct (select_pool_spec _ _ _ _ _ Es) as [k [Hi [Hn [Hb Hm]]]]. cbn in Hi. subst i.
@@ -306,11 +302,17 @@ Proof.
           * eexists. split; [left; reflexivity|reflexivity].
           * destruct (Hused _ _ _ Hn Hb') as [a [Ha Hs]]. exists a. split; [right; exact Ha|exact Hs].
         + destruct (Hused _ _ _ H Hb') as [a [Ha Hs]]. exists a. split; [right; exact Ha|exact Hs]. }
-    destruct (find_sid priv (s_sids s)) as [v|]; cbn;
+    destruct (find_sid priv (s_sids s)) as [v|]; destruct fm; cbn;
+      try (constructor; cbn; auto; fail);
       [destruct (Hsid v) as [A B C D E F]|destruct (Hsid (s_next_sid s)) as [A B C D E F]];
       constructor; cbn in *; auto.
-  - (* Dealloc *)
+Qed.
+
+Lemma do_dealloc_inv s priv fm fl : Inv s -> Inv (fst (fst (do_dealloc s priv fm fl))).
+Proof.
+  intros HI. unfold do_dealloc.
     destruct (find_alloc priv (s_allocs s)) as [a|] eqn:Ef; cbn; [|destruct HI; constructor; auto].
+    destruct fm; cbn; [destruct HI; constructor; auto|].
     destruct (find_alloc_some _ _ _ Ef) as [Ha Hp].
     destruct HI as [Hmax Hips Hpriv Hslot Halloc Hused]. constructor; cbn.
     + intros j q H. apply nth_upd_inv in H. destruct H as [[-> [p' [Hp' ->]]]|[_ H]]; cbn; eauto.
@@ -337,9 +339,38 @@ Proof.
         rewrite Hs. unfold slot. congruence.
       * destruct (Hused _ _ _ H Hb') as [a' [Ha' Hs]]. apply (Hkeep a' Ha' Hs).
         rewrite Hs. unfold slot. congruence.
-  - destruct HI; constructor; auto.
-  - destruct HI; constructor; auto.
-  - destruct HI; constructor; auto.
+Qed.
+
+Lemma step_inv s o : Inv s -> Inv (next s o).
+Proof.
+  intros HI. apply inv_tick in HI. unfold next, step. revert HI. generalize (tick s). clear s. intros s HI.
+  unfold step_body. destruct o as [ip|priv|priv|priv| |co|priv fm fl|priv fm fl].
+  - (* AddIP *) cbn.
+    destruct (existsb (fun p => p_ip p =? ip) (s_pool s)) eqn:E; cbn; [destruct HI; constructor; auto|].
+    destruct HI as [Hmax Hips Hpriv Hslot Halloc Hused]. constructor; cbn; auto.
+    + intros i p H. destruct (Nat.lt_ge_cases i (length (s_pool s))) as [Hl|Hl].
+      * rewrite nth_error_app1 in H by exact Hl. eauto.
+      * rewrite nth_error_app2 in H by exact Hl.
+        destruct (i - length (s_pool s))%nat as [|k]; cbn in H; [inversion H; reflexivity|destruct k; discriminate].
+    + rewrite map_app. cbn. apply NoDup_app_single_r.
+      * exact Hips.
+      * intros Hin. apply in_map_iff in Hin. destruct Hin as [p [Hp Hin]].
+        assert (existsb (fun p => p_ip p =? ip) (s_pool s) = true).
+        { apply existsb_exists. exists p. split; [exact Hin|apply Z.eqb_eq; exact Hp]. }
+        congruence.
+    + intros a Ha. destruct (Halloc a Ha) as [p [Hn Hr]]. exists p. split; [|exact Hr].
+      rewrite nth_error_app1; [exact Hn|]. apply nth_error_Some. congruence.
+    + intros i p b H Hb. destruct (Nat.lt_ge_cases i (length (s_pool s))) as [Hl|Hl].
+      * rewrite nth_error_app1 in H by exact Hl. eauto.
+      * rewrite nth_error_app2 in H by exact Hl.
+        destruct (i - length (s_pool s))%nat as [|k]; cbn in H; [inversion H; subst; cbn in Hb; tauto|destruct k; discriminate].
+  - apply do_alloc_inv; exact HI.
+  - apply do_dealloc_inv; exact HI.
+  - exact HI.
+  - exact HI.
+  - exact HI.
+  - apply do_alloc_inv; exact HI.
+  - apply do_dealloc_inv; exact HI.
 Qed.
 
 (* ------------------------------------------------------------------ histories *)
@@ -406,21 +437,41 @@ Proof.
   - cbn. destruct (a_priv h =? priv); [reflexivity|exact IH].
 Qed.
 
-Lemma step_keeps s o priv a : o <> Dealloc priv ->
-  find_alloc priv (s_allocs s) = Some a -> find_alloc priv (s_allocs (next s o)) = Some a.
+Definition releases (o : op) (priv : Z) : bool :=
+  match o with Dealloc q | DeallocF q _ _ => q =? priv | _ => false end.
+
+Lemma do_alloc_keeps s q fm fl priv a :
+  find_alloc priv (s_allocs s) = Some a -> find_alloc priv (s_allocs (fst (fst (do_alloc s q fm fl)))) = Some a.
 Proof.
-  intros Ho Hf. unfold next, step, step_body. destruct o as [ip|q|q|q| |co]; cbn; auto.
-  - destruct (existsb _ _); cbn; auto.
-  - destruct (find_alloc q (s_allocs s)) eqn:Eq; cbn; auto.
-    destruct (select_pool _ _) as [[[i p] b]|]; cbn; auto.
-    assert (Hne : (q =? priv) = false).
-    { apply Z.eqb_neq. intros ->. congruence. }
-    destruct (find_sid _ _); cbn; rewrite Hne; exact Hf.
-  - destruct (find_alloc q (s_allocs s)) eqn:Eq; cbn; auto.
-    rewrite find_remove_other; [exact Hf|]. intros ->. apply Ho. reflexivity.
+  intros Hf. unfold do_alloc. destruct (find_alloc q (s_allocs s)) eqn:Eq; cbn; auto.
+  destruct (select_pool _ _) as [[[i p] b]|]; cbn; auto.
+  assert (Hne : (q =? priv) = false).
+  { apply Z.eqb_neq. intros ->. congruence. }
+  destruct (find_sid _ _); destruct fm; cbn; rewrite ?Hne; exact Hf.
 Qed.
 
-Lemma run_keeps ops : forall s priv a, Forall (fun o => o <> Dealloc priv) ops ->
+Lemma do_dealloc_keeps s q fm fl priv a : q <> priv ->
+  find_alloc priv (s_allocs s) = Some a -> find_alloc priv (s_allocs (fst (fst (do_dealloc s q fm fl)))) = Some a.
+Proof.
+  intros Hne Hf. unfold do_dealloc. destruct (find_alloc q (s_allocs s)) eqn:Eq; cbn; auto.
+  destruct fm; cbn; auto. rewrite find_remove_other; [exact Hf|]. congruence.
+Qed.
+
+Lemma step_keeps s o priv a : releases o priv = false ->
+  find_alloc priv (s_allocs s) = Some a -> find_alloc priv (s_allocs (next s o)) = Some a.
+Proof.
+  intros Ho Hf. unfold next, step, step_body. destruct o as [ip|q|q|q| |co|q fm fl|q fm fl]; cbn in Ho.
+  - cbn. destruct (existsb _ _); cbn; auto.
+  - apply (do_alloc_keeps (tick s)). exact Hf.
+  - apply (do_dealloc_keeps (tick s)); [apply Z.eqb_neq; exact Ho|exact Hf].
+  - exact Hf.
+  - exact Hf.
+  - exact Hf.
+  - apply (do_alloc_keeps (tick s)). exact Hf.
+  - apply (do_dealloc_keeps (tick s)); [apply Z.eqb_neq; exact Ho|exact Hf].
+Qed.
+
+Lemma run_keeps ops : forall s priv a, Forall (fun o => releases o priv = false) ops ->
   find_alloc priv (s_allocs s) = Some a -> find_alloc priv (s_allocs (run s ops)) = Some a.
 Proof.
   induction ops as [|o tl IH]; intros s priv a Hall Hf; [exact Hf|].
@@ -431,7 +482,7 @@ Definition result (s : state) (o : op) : res := o_res (snd (fst (step s o))).
 
 Lemma result_alloc_holder s priv a : find_alloc priv (s_allocs s) = Some a ->
   result s (Alloc priv) = RAlloc (view a) /\ result s (Get priv) = RGet (Some (view a)).
-Proof. intros H. unfold result, step, step_body. cbn. rewrite H. cbn. auto. Qed.
+Proof. intros H. unfold result, step, step_body, do_alloc. cbn. rewrite H. cbn. auto. Qed.
 
 (* ------------------------------------------------------------------ the log *)
 Definition LogT (s : state) : Prop := Forall (fun tr => fst tr <= s_clock s) (s_log s).
@@ -455,18 +506,35 @@ Proof.
 Qed.
 
 (* the new records of one step, and their effect when read back *)
+Lemma do_alloc_log s q fm fl : exists recs,
+  s_log (fst (fst (do_alloc s q fm fl))) = map (fun r => (s_clock s, r)) recs ++ s_log s /\
+  s_clock (fst (fst (do_alloc s q fm fl))) = s_clock s.
+Proof.
+  unfold do_alloc. destruct (find_alloc q (s_allocs s)); cbn; [exists []; auto|].
+  destruct (select_pool _ _) as [[[i p] b]|]; cbn; [|exists []; auto].
+  destruct (find_sid _ _); destruct fm; cbn; try (exists []; auto; fail); eexists; split; reflexivity.
+Qed.
+
+Lemma do_dealloc_log s q fm fl : exists recs,
+  s_log (fst (fst (do_dealloc s q fm fl))) = map (fun r => (s_clock s, r)) recs ++ s_log s /\
+  s_clock (fst (fst (do_dealloc s q fm fl))) = s_clock s.
+Proof.
+  unfold do_dealloc. destruct (find_alloc q (s_allocs s)); cbn; [|exists []; auto].
+  destruct fm; cbn; [exists []; auto|]. eexists; split; reflexivity.
+Qed.
+
 Lemma step_log s o : exists recs,
   s_log (next s o) = map (fun r => (s_clock s + 1, r)) recs ++ s_log s /\ s_clock (next s o) = s_clock s + 1.
 Proof.
-  unfold next, step, step_body. destruct o as [ip|q|q|q| |co]; cbn.
-  - destruct (existsb _ _); cbn; exists []; auto.
-  - destruct (find_alloc q (s_allocs s)); cbn; [exists []; auto|].
-    destruct (select_pool _ _) as [[[i p] b]|]; cbn; [|exists []; auto].
-    destruct (find_sid _ _); cbn; eexists; split; reflexivity.
-  - destruct (find_alloc q (s_allocs s)); cbn; [|exists []; auto]. eexists; split; reflexivity.
+  unfold next, step, step_body. destruct o as [ip|q|q|q| |co|q fm fl|q fm fl].
+  - cbn. destruct (existsb _ _); cbn; exists []; auto.
+  - exact (do_alloc_log (tick s) q false false).
+  - exact (do_dealloc_log (tick s) q false false).
   - exists []; auto.
   - exists []; auto.
   - exists []; auto.
+  - exact (do_alloc_log (tick s) q fm fl).
+  - exact (do_dealloc_log (tick s) q fm fl).
 Qed.
 
 Lemma step_logT s o : LogT s -> LogT (next s o).
@@ -541,38 +609,65 @@ Lemma replay_cons bs tr l : replay bs (tr :: l) = apply_rec bs (replay bs l) (sn
 Proof. reflexivity. Qed.
 Arguments replay : simpl never.
 
-Lemma step_logok bs s o : Inv s -> rec_matches bs s -> LogOK bs s -> LogOK bs (next s o).
+(* an operation whose record (if it writes one) reaches the log *)
+Definition lossless (o : op) : bool :=
+  match o with AllocF _ _ fl | DeallocF _ _ fl => negb fl | _ => true end.
+
+Lemma do_alloc_logok bs s q fm : Inv s -> rec_matches bs s -> LogOK bs s ->
+  LogOK bs (fst (fst (do_alloc s q fm false))).
 Proof.
-  intros HI Hm HL. unfold LogOK in *. unfold next, step, step_body.
-  destruct o as [ip|q|q|q| |co]; cbn; auto.
-  - destruct (existsb _ _); cbn; auto.
-  - destruct (find_alloc q (s_allocs s)) eqn:Ef; cbn; auto.
-    destruct (select_pool 0 (s_pool s)) as [[[i p] b]|] eqn:Es; cbn; auto.
-    destruct (select_pool_spec _ _ _ _ _ Es) as [k [Hi [Hn [Hb Hlt]]]].
-    assert (Hend : s_mode s = LogTrad ->
-              wrap16 (c_start (s_cfg s) + b * c_pps (s_cfg s)) + bs - 1 =
-              wrap16 (wrap16 (c_start (s_cfg s) + b * c_pps (s_cfg s)) + wrap16 (c_pps (s_cfg s)) - 1)).
-    { intros Hmode. unfold rec_matches in Hm. rewrite Hmode in Hm. destruct Hm as [Hc ->].
-      assert (Hbb : 0 <= b < max_subs (s_cfg s)).
-      { split; [rewrite Hb; apply lowest_free_nonneg|rewrite <- (I_max s HI _ _ Hn); exact Hlt]. }
-      destruct (block_exact _ _ Hc Hbb) as [E1 [E2 _]]. rewrite E2, E1. lia. }
-    unfold rec_matches in Hm. revert Hm Hend.
-    destruct (find_sid _ _); destruct (s_mode s) eqn:Em; intros Hm Hend; cbn; try contradiction;
-      rewrite replay_cons; cbn; unfold apply_rec; cbn; rewrite HL; try reflexivity;
-      rewrite (Hend eq_refl); reflexivity.
-  - destruct (find_alloc q (s_allocs s)) as [a|] eqn:Ef; cbn; auto.
-    unfold rec_matches in Hm. revert Hm.
-    destruct (s_mode s) eqn:Em; intros Hm; cbn; try contradiction;
-      rewrite replay_cons; cbn; unfold apply_rec; cbn; rewrite HL; apply remove_blk_alloc; exact Ef.
+  intros HI Hm HL. unfold LogOK in *. unfold do_alloc.
+  destruct (find_alloc q (s_allocs s)) eqn:Ef; cbn; auto.
+  destruct (select_pool 0 (s_pool s)) as [[[i p] b]|] eqn:Es; cbn; auto.
+  destruct (select_pool_spec _ _ _ _ _ Es) as [k [Hi [Hn [Hb Hlt]]]].
+  destruct fm; [destruct (find_sid _ _); cbn; exact HL|].
+  assert (Hend : s_mode s = LogTrad ->
+            wrap16 (c_start (s_cfg s) + b * c_pps (s_cfg s)) + bs - 1 =
+            wrap16 (wrap16 (c_start (s_cfg s) + b * c_pps (s_cfg s)) + wrap16 (c_pps (s_cfg s)) - 1)).
+  { intros Hmode. unfold rec_matches in Hm. rewrite Hmode in Hm. destruct Hm as [Hc ->].
+    assert (Hbb : 0 <= b < max_subs (s_cfg s)).
+    { split; [rewrite Hb; apply lowest_free_nonneg|rewrite <- (I_max s HI _ _ Hn); exact Hlt]. }
+    destruct (block_exact _ _ Hc Hbb) as [E1 [E2 _]]. rewrite E2, E1. lia. }
+  unfold rec_matches in Hm. revert Hm Hend.
+  destruct (find_sid _ _); destruct (s_mode s) eqn:Em; intros Hm Hend; cbn; try contradiction;
+    rewrite replay_cons; cbn; unfold apply_rec; cbn; rewrite HL; try reflexivity;
+    rewrite (Hend eq_refl); reflexivity.
+Qed.
+
+Lemma do_dealloc_logok bs s q fm : Inv s -> rec_matches bs s -> LogOK bs s ->
+  LogOK bs (fst (fst (do_dealloc s q fm false))).
+Proof.
+  intros HI Hm HL. unfold LogOK in *. unfold do_dealloc.
+  destruct (find_alloc q (s_allocs s)) as [a|] eqn:Ef; cbn; auto.
+  destruct fm; cbn; auto.
+  unfold rec_matches in Hm. revert Hm.
+  destruct (s_mode s) eqn:Em; intros Hm; cbn; try contradiction;
+    rewrite replay_cons; cbn; unfold apply_rec; cbn; rewrite HL; apply remove_blk_alloc; exact Ef.
+Qed.
+
+Lemma step_logok bs s o : lossless o = true -> Inv s -> rec_matches bs s -> LogOK bs s -> LogOK bs (next s o).
+Proof.
+  intros Hl HI Hm HL. apply inv_tick in HI. unfold next, step, step_body.
+  destruct o as [ip|q|q|q| |co|q fm fl|q fm fl]; cbn in Hl.
+  - unfold LogOK in *. cbn. destruct (existsb _ _); cbn; auto.
+  - exact (do_alloc_logok bs (tick s) q false HI Hm HL).
+  - exact (do_dealloc_logok bs (tick s) q false HI Hm HL).
+  - exact HL.
+  - exact HL.
+  - exact HL.
+  - destruct fl; [discriminate|]. exact (do_alloc_logok bs (tick s) q fm HI Hm HL).
+  - destruct fl; [discriminate|]. exact (do_dealloc_logok bs (tick s) q fm HI Hm HL).
 Qed.
 
 Lemma step_matches bs s o : rec_matches bs s -> rec_matches bs (next s o).
 Proof. unfold rec_matches. destruct (step_cfg s o) as [-> ->]. auto. Qed.
 
-Lemma run_logok bs ops : forall s, Inv s -> rec_matches bs s -> LogOK bs s -> LogOK bs (run s ops).
+Lemma run_logok bs ops : forall s, Forall (fun o => lossless o = true) ops ->
+  Inv s -> rec_matches bs s -> LogOK bs s -> LogOK bs (run s ops).
 Proof.
-  induction ops as [|o tl IH]; intros s HI Hm HL; [exact HL|]. rewrite run_cons.
-  apply IH; [apply step_inv; exact HI|apply step_matches; exact Hm|apply step_logok; assumption].
+  induction ops as [|o tl IH]; intros s Hall HI Hm HL; [exact HL|]. rewrite run_cons.
+  inversion Hall; subst.
+  apply IH; [assumption|apply step_inv; exact HI|apply step_matches; exact Hm|apply step_logok; assumption].
 Qed.
 
 (* ------------------------------------------------------------------ at most one holder *)
@@ -655,7 +750,7 @@ Proof. apply I_priv, hist_inv. Qed.
 
 Lemma c10_stable c m ops1 ops2 priv a :
   find_alloc priv (s_allocs (hist c m ops1)) = Some a ->
-  Forall (fun o => o <> Dealloc priv) ops2 ->
+  Forall (fun o => releases o priv = false) ops2 ->
   find_alloc priv (s_allocs (hist c m (ops1 ++ ops2))) = Some a /\
   result (hist c m (ops1 ++ ops2)) (Alloc priv) = RAlloc (view a) /\
   result (hist c m (ops1 ++ ops2)) (Get priv) = RGet (Some (view a)).
@@ -664,39 +759,63 @@ Proof.
   pose proof (run_keeps ops2 _ priv a Hall Hf) as Hk. split; [exact Hk|]. apply result_alloc_holder, Hk.
 Qed.
 
-Lemma c10_released c m ops priv :
-  find_alloc priv (s_allocs (hist c m (ops ++ [Dealloc priv]))) = None.
+Lemma c10_released c m ops priv fl :
+  find_alloc priv (s_allocs (hist c m (ops ++ [DeallocF priv false fl]))) = None.
 Proof.
   unfold hist. rewrite run_app. set (s := run (init c m) ops).
   assert (HI : Inv s) by (apply run_inv, inv_init).
-  cbn. unfold next, step, step_body. cbn.
+  cbn. unfold next, step, step_body, do_dealloc. cbn.
   destruct (find_alloc priv (s_allocs s)) as [a|] eqn:Ef; cbn; [|exact Ef].
   destruct (find_alloc priv (remove_alloc priv (s_allocs s))) as [x|] eqn:Ex; [|reflexivity].
   exfalso. destruct (find_alloc_some _ _ _ Ex) as [Hin Hp].
   exact (remove_alloc_drops _ _ _ (I_priv s HI) Hin Hp).
 Qed.
 
+(* a refused release (the subscriber_nat delete failed) keeps the block *)
+Lemma c10_refused_release_keeps c m ops priv fl :
+  s_allocs (hist c m (ops ++ [DeallocF priv true fl])) = s_allocs (hist c m ops).
+Proof.
+  unfold hist. rewrite run_app. cbn. unfold next, step, step_body, do_dealloc. cbn.
+  destruct (find_alloc priv _); reflexivity.
+Qed.
+
+(* a failed allocation (the subscriber_nat update failed) reserves nothing and writes nothing *)
+Lemma c10_failed_alloc_reserves_nothing c m ops priv fl :
+  find_alloc priv (s_allocs (hist c m ops)) = None ->
+  let s' := hist c m (ops ++ [AllocF priv true fl]) in
+  s_allocs s' = s_allocs (hist c m ops) /\ s_pool s' = s_pool (hist c m ops) /\ s_log s' = s_log (hist c m ops).
+Proof.
+  intros Hf. cbn zeta. unfold hist in *. rewrite run_app. cbn. unfold next, step, step_body, do_alloc. cbn.
+  rewrite Hf. destruct (select_pool _ _) as [[[i p] b]|]; cbn; auto.
+  destruct (find_sid _ _); cbn; auto.
+Qed.
+
 Lemma init_logT c m : LogT (init c m).
 Proof. constructor. Qed.
 
+Lemma Forall_firstn' {A} (P : A -> Prop) n : forall l, Forall P l -> Forall P (firstn n l).
+Proof. induction n as [|n IH]; intros l H; [constructor|]. destruct l; [constructor|]. inversion H; subst. cbn. constructor; auto. Qed.
+
+Definition all_lossless (ops : list op) : Prop := Forall (fun o => lossless o = true) ops.
+
 Lemma c10_attributable c m ops bs ip port t :
-  rec_matches bs (init c m) -> 0 <= t ->
+  all_lossless ops -> rec_matches bs (init c m) -> 0 <= t ->
   attribute bs (s_log (hist c m ops)) ip port t = holders (hist c m (firstn (Z.to_nat t) ops)) ip port.
 Proof.
-  intros Hm Ht. unfold attribute, holders, hist.
+  intros Hl Hm Ht. unfold attribute, holders, hist.
   rewrite (log_upto (init c m) ops t (init_logT c m) eq_refl Ht).
-  rewrite (run_logok bs _ (init c m) (inv_init c m) Hm); [reflexivity|reflexivity].
+  rewrite (run_logok bs _ (init c m) (Forall_firstn' _ _ _ Hl) (inv_init c m) Hm); [reflexivity|reflexivity].
 Qed.
 
-Lemma c10_attributable_bulk c ops bs ip port t : 0 <= t ->
+Lemma c10_attributable_bulk c ops bs ip port t : all_lossless ops -> 0 <= t ->
   attribute bs (s_log (hist c LogBulk ops)) ip port t =
   holders (hist c LogBulk (firstn (Z.to_nat t) ops)) ip port.
-Proof. intros Ht. apply c10_attributable; [exact I|exact Ht]. Qed.
+Proof. intros Hl Ht. apply c10_attributable; [exact Hl|exact I|exact Ht]. Qed.
 
-Lemma c10_attributable_trad c ops ip port t : cfg_ok c -> 0 <= t ->
+Lemma c10_attributable_trad c ops ip port t : all_lossless ops -> cfg_ok c -> 0 <= t ->
   attribute (c_pps c) (s_log (hist c LogTrad ops)) ip port t =
   holders (hist c LogTrad (firstn (Z.to_nat t) ops)) ip port.
-Proof. intros Hc Ht. apply c10_attributable; [split; [exact Hc|reflexivity]|exact Ht]. Qed.
+Proof. intros Hl Hc Ht. apply c10_attributable; [exact Hl|split; [exact Hc|reflexivity]|exact Ht]. Qed.
 
 Lemma c10_at_most_one_holder c m ops ip port : cfg_ok c ->
   (length (holders (hist c m ops) ip port) <= 1)%nat.
@@ -707,20 +826,37 @@ Lemma c10_holder_exactly_one c m ops a port : cfg_ok c ->
   holders (hist c m ops) (a_pub a) port = [a_priv a].
 Proof. intros Hc. apply inv_holder_is; [apply hist_inv|rewrite hist_cfg; exact Hc]. Qed.
 
-Lemma c10_attribute_names_the_holder c ops bs a port t : cfg_ok c -> 0 <= t ->
+Lemma c10_attribute_names_the_holder c ops bs a port t : all_lossless ops -> cfg_ok c -> 0 <= t ->
   In a (s_allocs (hist c LogBulk (firstn (Z.to_nat t) ops))) -> a_start a <= port <= a_end a ->
   attribute bs (s_log (hist c LogBulk ops)) (a_pub a) port t = [a_priv a].
 Proof.
-  intros Hc Ht Ha Hp. rewrite c10_attributable_bulk by exact Ht. apply c10_holder_exactly_one; assumption.
+  intros Hl Hc Ht Ha Hp. rewrite c10_attributable_bulk by assumption. apply c10_holder_exactly_one; assumption.
 Qed.
+
+(* a failing log writer loses the record (known finding K10e): the log no longer attributes *)
+Lemma c10_attributable_lost_record_refuted :
+  ~ (forall c ops bs ip port t, 0 <= t ->
+       attribute bs (s_log (hist c LogBulk ops)) ip port t =
+       holders (hist c LogBulk (firstn (Z.to_nat t) ops)) ip port).
+Proof.
+  intros H.
+  specialize (H {| c_pps := 1000; c_start := 60000; c_end := 65535 |} [AddIP 9; AllocF 1 false true] 0 9 60500 2).
+  assert (H2 : 0 <= 2) by lia. specialize (H H2). vm_compute in H. discriminate.
+Qed.
+
 
 Lemma step_log_off s o : s_mode s = LogOff -> s_log (next s o) = s_log s.
 Proof.
-  intros Hm. unfold next, step, step_body. destruct o as [ip|q|q|q| |co]; cbn; auto.
-  - destruct (existsb _ _); reflexivity.
-  - destruct (find_alloc _ _); cbn; auto. destruct (select_pool _ _) as [[[i p] b]|]; cbn; auto.
-    destruct (find_sid _ _); cbn; rewrite Hm; reflexivity.
-  - destruct (find_alloc _ _); cbn; auto. rewrite Hm. reflexivity.
+  intros Hm. unfold next, step, step_body.
+  assert (HA : forall q fm fl, s_log (fst (fst (do_alloc (tick s) q fm fl))) = s_log s).
+  { intros q fm fl. unfold do_alloc. cbn. destruct (find_alloc _ _); cbn; auto.
+    destruct (select_pool _ _) as [[[i p] b]|]; cbn; auto.
+    destruct (find_sid _ _); destruct fm; destruct fl; cbn; rewrite ?Hm; reflexivity. }
+  assert (HD : forall q fm fl, s_log (fst (fst (do_dealloc (tick s) q fm fl))) = s_log s).
+  { intros q fm fl. unfold do_dealloc. cbn. destruct (find_alloc _ _); cbn; auto.
+    destruct fm; destruct fl; cbn; rewrite ?Hm; reflexivity. }
+  destruct o as [ip|q|q|q| |co|q fm fl|q fm fl]; auto.
+  cbn. destruct (existsb _ _); reflexivity.
 Qed.
 
 Lemma c10_logging_off_no_records c ops : s_log (hist c LogOff ops) = [].
@@ -841,20 +977,27 @@ Proof. destruct m; cbn; rewrite ?Z.eqb_refl; reflexivity. Qed.
 Lemma release_rec_ok_log m a : release_rec_ok m (blk_of a) (log_dealloc m a) = true.
 Proof. destruct m; cbn; rewrite ?Z.eqb_refl; reflexivity. Qed.
 
-Lemma alloc_new_shape s q : find_alloc q (s_allocs s) = None ->
-  (snd (fst (step s (Alloc q))) = mk_out (RErr 0) [] /\ s_allocs (next s (Alloc q)) = s_allocs s) \/
-  exists anew, snd (fst (step s (Alloc q))) = mk_out (RAlloc (view anew)) (log_alloc (s_mode s) anew) /\
-               s_allocs (next s (Alloc q)) = anew :: s_allocs s /\ a_priv anew = q.
+Lemma alloc_new_shape s q fm : find_alloc q (s_allocs s) = None ->
+  (exists e, snd (fst (step s (AllocF q fm false))) = mk_out (RErr e) [] /\
+             s_allocs (next s (AllocF q fm false)) = s_allocs s) \/
+  exists anew, snd (fst (step s (AllocF q fm false))) = mk_out (RAlloc (view anew)) (log_alloc (s_mode s) anew) /\
+               s_allocs (next s (AllocF q fm false)) = anew :: s_allocs s /\ a_priv anew = q.
 Proof.
-  intros H. unfold next, step, step_body. cbn. rewrite H.
-  destruct (select_pool 0 (s_pool s)) as [[[i p] b]|]; cbn; [|left; auto].
+  intros H. unfold next, step, step_body, do_alloc. cbn. rewrite H.
+  destruct (select_pool 0 (s_pool s)) as [[[i p] b]|]; cbn; [|left; eexists; auto].
+  destruct fm; [left; destruct (find_sid q (s_sids s)); cbn; eexists; auto|].
   right. destruct (find_sid q (s_sids s)); cbn; eexists; repeat split.
 Qed.
 
 Lemma dealloc_shape s q a : find_alloc q (s_allocs s) = Some a ->
-  snd (fst (step s (Dealloc q))) = mk_out RNone (log_dealloc (s_mode s) a) /\
-  s_allocs (next s (Dealloc q)) = remove_alloc q (s_allocs s).
-Proof. intros H. unfold next, step, step_body. cbn. rewrite H. cbn. auto. Qed.
+  snd (fst (step s (DeallocF q false false))) = mk_out RNone (log_dealloc (s_mode s) a) /\
+  s_allocs (next s (DeallocF q false false)) = remove_alloc q (s_allocs s).
+Proof. intros H. unfold next, step, step_body, do_dealloc. cbn. rewrite H. cbn. auto. Qed.
+
+Lemma dealloc_refused_shape s q a fl : find_alloc q (s_allocs s) = Some a ->
+  snd (fst (step s (DeallocF q true fl))) = mk_out (RErr 4) [] /\
+  s_allocs (next s (DeallocF q true fl)) = s_allocs s.
+Proof. intros H. unfold next, step, step_body, do_dealloc. cbn. rewrite H. cbn. auto. Qed.
 
 Arguments new_block_clause : simpl never.
 Arguments assign_rec_ok : simpl never.
@@ -863,57 +1006,77 @@ Arguments same_blk : simpl never.
 Arguments find_blk : simpl never.
 Arguments remove_blk : simpl never.
 
-Lemma step_accepted s ss o : Inv s -> cfg_ok (s_cfg s) -> Rel s ss -> seq_op o ->
+Lemma step_accepted s ss o : Inv s -> cfg_ok (s_cfg s) -> Rel s ss -> seq_op o -> lossless o = true ->
   exists ss', accept ss o (snd (fst (step s o))) = inl ss' /\ Rel (next s o) ss'.
 Proof.
-  intros HI Hc [Rc [Rm Rt]] Hseq.
-  pose proof (step_inv s o HI) as HI'. destruct (step_cfg s o) as [Hcf Hmo].
-  assert (Hkeep : s_allocs (next s o) = s_allocs s -> Rel (next s o) ss).
-  { intros Ha. unfold Rel. rewrite Hcf, Hmo, Ha. auto. }
-  destruct o as [ip|q|q|q| |co]; try contradiction.
-  - exists ss. split; [|apply Hkeep].
-    + unfold accept, step, step_body. cbn. destruct (existsb _ _); reflexivity.
-    + unfold next, step, step_body. cbn. destruct (existsb _ _); reflexivity.
-  - destruct (find_alloc q (s_allocs s)) as [a|] eqn:Ef.
+  intros HI Hc [Rc [Rm Rt]] Hseq Hl.
+  assert (HA : forall q fm, exists ss',
+            accept ss (AllocF q fm false) (snd (fst (step s (AllocF q fm false)))) = inl ss' /\
+            Rel (next s (AllocF q fm false)) ss').
+  { intros q fm.
+    pose proof (step_inv s (AllocF q fm false) HI) as HI'. destruct (step_cfg s (AllocF q fm false)) as [Hcf Hmo].
+    assert (Hkeep : s_allocs (next s (AllocF q fm false)) = s_allocs s -> Rel (next s (AllocF q fm false)) ss).
+    { intros Ha. unfold Rel. rewrite Hcf, Hmo, Ha. auto. }
+    destruct (find_alloc q (s_allocs s)) as [a|] eqn:Ef.
     + exists ss. destruct (find_alloc_some _ _ _ Ef) as [_ Hp]. split; [|apply Hkeep].
-      * unfold accept, step, step_body. cbn. rewrite Ef. cbn. rewrite Hp, Z.eqb_refl. cbn.
+      * unfold accept, accept0, step, step_body, do_alloc. cbn. rewrite Ef. cbn. rewrite Hp, Z.eqb_refl. cbn.
         rewrite Rt, find_blk_map, Ef. cbn. rewrite same_blk_view. reflexivity.
-      * unfold next, step, step_body. cbn. rewrite Ef. reflexivity.
-    + destruct (alloc_new_shape s q Ef) as [[Ho Ha]|[anew [Ho [Ha Hp]]]].
+      * unfold next, step, step_body, do_alloc. cbn. rewrite Ef. reflexivity.
+    + destruct (alloc_new_shape s q fm Ef) as [[e [Ho Ha]]|[anew [Ho [Ha Hp]]]].
       * exists ss. split; [|apply Hkeep; exact Ha]. rewrite Ho. reflexivity.
-      * rewrite Ho. unfold accept. cbn. rewrite Hp, Z.eqb_refl. cbn.
+      * rewrite Ho. unfold accept, accept0. cbn. rewrite Hp, Z.eqb_refl. cbn.
         rewrite Rt, find_blk_map, Ef. cbn. rewrite Rc, <- Hcf.
         rewrite (new_block_ok _ anew _ HI' (eq_ind_r cfg_ok Hc Hcf) Ha).
         rewrite Rm, assign_rec_ok_log. eexists. split; [reflexivity|].
-        unfold Rel. cbn. rewrite Hmo, Ha. cbn. rewrite Hcf. auto.
-  - destruct (find_alloc q (s_allocs s)) as [a|] eqn:Ef.
-    + destruct (dealloc_shape s q a Ef) as [Ho Ha]. rewrite Ho. unfold accept. cbn.
-      rewrite Rt, find_blk_map, Ef. cbn. rewrite Rm, release_rec_ok_log. eexists. split; [reflexivity|].
-      unfold Rel. cbn. rewrite Hcf, Hmo, Ha. repeat split; auto. apply remove_blk_alloc. exact Ef.
+        unfold Rel. cbn. rewrite Hmo, Ha. cbn. rewrite Hcf. auto. }
+  assert (HD : forall q fm, exists ss',
+            accept ss (DeallocF q fm false) (snd (fst (step s (DeallocF q fm false)))) = inl ss' /\
+            Rel (next s (DeallocF q fm false)) ss').
+  { intros q fm. destruct (step_cfg s (DeallocF q fm false)) as [Hcf Hmo].
+    assert (Hkeep : s_allocs (next s (DeallocF q fm false)) = s_allocs s -> Rel (next s (DeallocF q fm false)) ss).
+    { intros Ha. unfold Rel. rewrite Hcf, Hmo, Ha. auto. }
+    destruct (find_alloc q (s_allocs s)) as [a|] eqn:Ef.
+    + destruct fm.
+      * destruct (dealloc_refused_shape s q a false Ef) as [Ho Ha]. exists ss.
+        split; [rewrite Ho; reflexivity|apply Hkeep; exact Ha].
+      * destruct (dealloc_shape s q a Ef) as [Ho Ha]. rewrite Ho. unfold accept, accept0. cbn.
+        rewrite Rt, find_blk_map, Ef. cbn. rewrite Rm, release_rec_ok_log. eexists. split; [reflexivity|].
+        unfold Rel. cbn. rewrite Hcf, Hmo, Ha. repeat split; auto. apply remove_blk_alloc. exact Ef.
     + exists ss. split; [|apply Hkeep].
-      * unfold accept, step, step_body. cbn. rewrite Ef. cbn. rewrite Rt, find_blk_map, Ef. reflexivity.
-      * unfold next, step, step_body. cbn. rewrite Ef. reflexivity.
+      * unfold accept, accept0, step, step_body, do_dealloc. cbn. rewrite Ef. cbn. rewrite Rt, find_blk_map, Ef. reflexivity.
+      * unfold next, step, step_body, do_dealloc. cbn. rewrite Ef. reflexivity. }
+  destruct (step_cfg s o) as [Hcf Hmo].
+  assert (Hkeep : s_allocs (next s o) = s_allocs s -> Rel (next s o) ss).
+  { intros Ha. unfold Rel. rewrite Hcf, Hmo, Ha. auto. }
+  destruct o as [ip|q|q|q| |co|q fm fl|q fm fl]; try contradiction; cbn in Hl.
+  - exists ss. split; [|apply Hkeep].
+    + unfold accept, accept0, step, step_body. cbn. destruct (existsb _ _); reflexivity.
+    + unfold next, step, step_body. cbn. destruct (existsb _ _); reflexivity.
+  - exact (HA q false).
+  - exact (HD q false).
   - exists ss. split; [|apply Hkeep; reflexivity].
-    unfold accept, step, step_body. cbn. rewrite Rt, find_blk_map.
+    unfold accept, accept0, step, step_body. cbn. rewrite Rt, find_blk_map.
     destruct (find_alloc q (s_allocs s)) as [a|]; cbn; [rewrite same_blk_view|]; reflexivity.
   - exists ss. split; [reflexivity|apply Hkeep; reflexivity].
+  - destruct fl; [discriminate|]. exact (HA q fm).
+  - destruct fl; [discriminate|]. exact (HD q fm).
 Qed.
 
 Lemma model_accepted ops : forall s ss i, Inv s -> cfg_ok (s_cfg s) -> Rel s ss -> Forall seq_op ops ->
-  accept_trace accept i ss (mtrace s ops) = (0%N, 0%N).
+  all_lossless ops -> accept_trace accept i ss (mtrace s ops) = (0%N, 0%N).
 Proof.
-  induction ops as [|o tl IH]; intros s ss i HI Hc HR Hall; [reflexivity|].
-  inversion Hall; subst. cbn.
-  destruct (step_accepted s ss o HI Hc HR) as [ss' [Ha HR']]; [assumption|].
+  induction ops as [|o tl IH]; intros s ss i HI Hc HR Hall Hl; [reflexivity|].
+  inversion Hall; subst. inversion Hl; subst. cbn.
+  destruct (step_accepted s ss o HI Hc HR) as [ss' [Ha HR']]; [assumption|assumption|].
   rewrite Ha. apply IH; auto.
   - apply step_inv; exact HI.
   - destruct (step_cfg s o) as [-> _]. exact Hc.
 Qed.
 
-Lemma c10_model_refines_spec c m ops : cfg_ok c -> Forall seq_op ops ->
+Lemma c10_model_refines_spec c m ops : cfg_ok c -> Forall seq_op ops -> all_lossless ops ->
   accept_trace accept 1%N (sinit c m) (mtrace (init c m) ops) = (0%N, 0%N).
 Proof.
-  intros Hc Hall. apply model_accepted; auto; [apply inv_init|repeat split].
+  intros Hc Hall Hl. apply model_accepted; auto; [apply inv_init|repeat split].
 Qed.
 
 (* the same statement on the functions bin/check evaluates (Base/Check.v) *)
@@ -924,7 +1087,16 @@ Proof.
   destruct (step s o) as [[s' r] mk]. cbn. rewrite IH. reflexivity.
 Qed.
 
-Lemma c10_model_refines_spec_check c m ops : cfg_ok c -> Forall seq_op ops ->
+Lemma c10_model_refines_spec_check c m ops : cfg_ok c -> Forall seq_op ops -> all_lossless ops ->
   accept_trace accept 1%N (sinit c m)
     (map (fun x => (fst (fst x), snd (fst x))) (model_trace step (init c m) ops)) = (0%N, 0%N).
-Proof. intros Hc Hall. rewrite mtrace_check. apply c10_model_refines_spec; assumption. Qed.
+Proof. intros Hc Hall Hl. rewrite mtrace_check. apply c10_model_refines_spec; assumption. Qed.
+
+(* with a failing log writer the Model's own trace is rejected by the monitor (clause 4), and the
+   Model raises marker 1003 there: that is what makes the rejection a known finding (K10e) *)
+Definition w_cfg_lost : cfg := {| c_pps := 1000; c_start := 60000; c_end := 65535 |}.
+Definition w_ops_lost : list op := [AddIP 9; AllocF 1 false true].
+Lemma c10_lost_record_rejected :
+  (accept_trace accept 1%N (sinit w_cfg_lost LogBulk) (mtrace (init w_cfg_lost LogBulk) w_ops_lost) = (2%N, 5%N)) /\
+  (snd (step (next (init w_cfg_lost LogBulk) (AddIP 9)) (AllocF 1 false true)) = [1003%N]).
+Proof. vm_compute. split; reflexivity. Qed.
